@@ -20,17 +20,16 @@ func verifIn(x uint64, s []uint64) bool {
 	return r
 }
 
-// verifLayout: all ids share everything above the low 16 bits (layout 1) or above the low
-// 32 bits (layout 2); 3 = unconstrained.
-func verifLayout(layout int, base uint64, vs ...uint64) {
-	for _, v := range vs {
-		switch layout {
-		case 1:
-			verifrt.Assume(v>>16 == base>>16)
-		case 2:
-			verifrt.Assume(v>>32 == base>>32)
-		}
+// verifID creates a symbolic id: layout 1 = shared symbolic base with symbolic low 16 bits
+// (one roaring container), 2 = shared base with symbolic low 32 bits, 3 = unconstrained.
+func verifID(layout int, base uint64, name string) uint64 {
+	switch layout {
+	case 1:
+		return base&^0xFFFF | uint64(verifrt.NondetUint16(name))
+	case 2:
+		return base&^0xFFFFFFFF | uint64(verifrt.NondetUint32(name))
 	}
+	return verifrt.NondetUint64(name)
 }
 
 // verifSpecAdj: m is adjacent to n in direction dir on the edge list, after deleting nodes
@@ -82,8 +81,7 @@ func verifIsNode(edges []verifEdge, extra []uint64, x uint64) bool {
 func verifEdges(ne, layout int, base uint64) []verifEdge {
 	edges := make([]verifEdge, ne)
 	for i := range edges {
-		edges[i] = verifEdge{verifrt.NondetUint64("edge id"), verifrt.NondetUint64("start"), verifrt.NondetUint64("end")}
-		verifLayout(layout, base, edges[i].id, edges[i].start, edges[i].end)
+		edges[i] = verifEdge{verifID(layout, base, "edge id"), verifID(layout, base, "start"), verifID(layout, base, "end")}
 	}
 	return edges
 }
@@ -121,9 +119,8 @@ func verifHasNode(g DirectedGraph, x uint64) bool {
 func VerifC14Adj(ne, layout int) {
 	base := verifrt.NondetUint64("base")
 	edges := verifEdges(ne, layout, base)
-	extra := verifrt.NondetUint64("isolated node")
-	n, m := verifrt.NondetUint64("probe node"), verifrt.NondetUint64("probe neighbour")
-	verifLayout(layout, base, extra, n, m)
+	extra := verifID(layout, base, "isolated node")
+	n, m := verifID(layout, base, "probe node"), verifID(layout, base, "probe neighbour")
 	dir := verifDirection()
 
 	var g DirectedGraph
@@ -163,8 +160,7 @@ func VerifC14Adj(ne, layout int) {
 func VerifC14Proj(ne, layout int) {
 	base := verifrt.NondetUint64("base")
 	edges := verifEdges(ne, layout, base)
-	n, m := verifrt.NondetUint64("probe node"), verifrt.NondetUint64("probe neighbour")
-	verifLayout(layout, base, n, m)
+	n, m := verifID(layout, base, "probe node"), verifID(layout, base, "probe neighbour")
 	dir := verifDirection()
 	ts := NewTriplestore()
 	for _, e := range edges {
@@ -173,21 +169,18 @@ func VerifC14Proj(ne, layout int) {
 	var delN, delE []uint64
 	dn, de := cardinality.NewBitmap64(), cardinality.NewBitmap64()
 	if verifrt.NondetChoice("delete a node", 2) == 1 {
-		x := verifrt.NondetUint64("deleted node")
-		verifLayout(layout, base, x)
+		x := verifID(layout, base, "deleted node")
 		delN = append(delN, x)
 		dn.Add(x)
 	}
 	if verifrt.NondetChoice("delete an edge", 2) == 1 {
-		x := verifrt.NondetUint64("deleted edge")
-		verifLayout(layout, base, x)
+		x := verifID(layout, base, "deleted edge")
 		delE = append(delE, x)
 		de.Add(x)
 	}
 	var p Triplestore = ts.Projection(dn, de)
 	if verifrt.NondetChoice("second layer", 2) == 1 {
-		x := verifrt.NondetUint64("second deleted node")
-		verifLayout(layout, base, x)
+		x := verifID(layout, base, "second deleted node")
 		delN = append(delN, x)
 		p = p.Projection(cardinality.NewBitmap64With(x), cardinality.NewBitmap64())
 	}
@@ -253,8 +246,7 @@ func VerifC14Reach(ne, layout int) {
 	const inf = 1 << 20
 	base := verifrt.NondetUint64("base")
 	edges := verifEdges(ne, layout, base)
-	root := verifrt.NondetUint64("root")
-	verifLayout(layout, base, root)
+	root := verifID(layout, base, "root")
 	dir := verifDirection()
 	var g DirectedGraph
 	name := ""
